@@ -58,6 +58,23 @@ def gen_size(rng, cfg, maxsize=40):
     return max(0, min(s, maxsize + 8))
 
 
+def gen_stalls(rng):
+    """Stalled-thread fault: a thread of one stage is away (descheduled, paused
+    by the VM, stuck in a slow call) for a while at one of its scheduling
+    points, while the clock and everybody else go on."""
+    if rng.random() < 0.8:
+        return []
+    role = rng.choice(['request', 'request', 'submission', 'io', 'io', 'driver'])
+    # where: any scheduling point (lock operations included), any point at
+    # which the thread is inside a call out of the library ('.': file system,
+    # service, user stream, callback, pool construction), or one such family
+    tag = wchoice(rng, [(None, 3), ('.', 5), ('executor.new', 1), ('fs.', 2), ('dst.write', 1),
+                        ('s3.', 2), ('cb.', 1)])
+    nth = rng.randint(0, 40) if tag is None else rng.randint(0, 12) if tag == '.' \
+        else rng.randint(0, 3)
+    return [[role, tag, nth, rng.choice([0.05, 1.0, 30.0])]]
+
+
 def gen_knobs(rng, cfg, body_tricks=False, short_reads=False):
     k = {
         'progress_threshold': wchoice(rng, [(1, 3), (2, 2), (rng.randint(1, 16), 3),
@@ -72,6 +89,10 @@ def gen_knobs(rng, cfg, body_tricks=False, short_reads=False):
                                  ('slow_last', 1)]),
         'epoch': wchoice(rng, [(1000.0, 3), (0.0, 1), (1.7e9, 1)]),
         'fs_buffer': wchoice(rng, [(8192, 3), (0, 1), (3, 1)]),
+        # slow file-system calls / slow consumers of a destination stream
+        'fs_latency': wchoice(rng, [('none', 12), ('slow_open', 1), ('slow_first_write', 1),
+                                    ('slow_write', 1), ('random', 1)]),
+        'stalls': gen_stalls(rng),
         # statement-level pre-emption inside s3transfer code (slower runs)
         'line_preempt': rng.random() < 0.06,
         'complete_idempotent': rng.random() < 0.5,
@@ -171,6 +192,10 @@ def gen_transfer(rng, cfg, types, nsubs=1, reenter=False, maxsize=40,
             spec['_reenter_cancel'] = True
     if ty in ('upload', 'copy') and rng.random() < 0.25:
         spec['extra_args'] = {'ChecksumAlgorithm': 'CRC32'}
+    elif ty == 'upload' and rng.random() < 0.15:
+        # the caller supplies the checksum of the whole object ('@full' is
+        # replaced by the CRC32 of the source data when the transfer is built)
+        spec['extra_args'] = {'ChecksumCRC32': '@full'}
     return spec
 
 
@@ -946,6 +971,8 @@ def gen_C13(rng):
         sc['knobs']['sibling'] = 'traffic'
         sc['knobs']['bw_threshold'] = thr
         sc['knobs']['latency'] = 'none'
+        sc['knobs']['fs_latency'] = 'none'
+        sc['knobs']['stalls'] = []
         sc['knobs']['pre_read'] = False
         sc['knobs']['io_chunk'] = rng.randint(4, 16)
         est = est_steps(sc['transfers'], cfg)
@@ -981,6 +1008,8 @@ def gen_C13(rng):
                     sub['provide_size'] = t['size']
         sc['knobs']['bw_threshold'] = thr
         sc['knobs']['latency'] = 'none'
+        sc['knobs']['fs_latency'] = 'none'
+        sc['knobs']['stalls'] = []
         sc['knobs']['pre_read'] = False
         sc['knobs']['sign_read'] = rng.random() < 0.3
         sc['strategy'] = gen_strategy(rng, est_steps(sc['transfers'], cfg))
@@ -1009,6 +1038,8 @@ def gen_C13(rng):
         sc['config']['max_bandwidth'] = rng.choice([8, 64, 1000])
         sc['knobs']['bw_threshold'] = rng.choice([1, 4, 16, 256 * 1024])
     sc['knobs']['latency'] = 'none'
+    sc['knobs']['fs_latency'] = 'none'
+    sc['knobs']['stalls'] = []
     sc['knobs']['pre_read'] = rng.random() < 0.2
     sc['knobs']['sign_read'] = rng.random() < 0.3
     r = rng.random()
@@ -1093,6 +1124,8 @@ def bandwidth_isolation(rng):
     sc['knobs']['sock_chunk'] = rng.randint(2, 4)
     sc['knobs']['sign_chunk'] = 1 << 20
     sc['knobs']['latency'] = 'none'
+    sc['knobs']['fs_latency'] = 'none'
+    sc['knobs']['stalls'] = []
     sc['knobs']['pre_read'] = False
     while len(sc['transfers']) < 2:
         sc['transfers'].append(gen_transfer(rng, cfg, [('upload', 2), ('download', 2)]))
